@@ -42,4 +42,10 @@ META = {
   "note": "Trusts the reference state table in harness/c05 (derived from RFC 9051 section 3/6 and RFC 8437), kit/tok for reading responses, and crypto/tls for the transport.",
   "technique": "stateful property-based testing (rapid) against a reference state machine with recording stub backend",
  },
+ "C04": {
+  "text": "Generated command streams with hostile literal sizes and payloads driven through a real imapserver by a synchronisation-conforming raw client; the server's output is framed by an independent tokenizer and checked against the sent framing, and a recording stub session proves that no payload text was executed. Sampling, not proof.",
+  "design_ref": "DESIGN.md 3/C04",
+  "note": "Trusts kit/tok and the harness's knowledge of what it sent; a 5 s silence on an in-memory pipe is interpreted as the server waiting for input.",
+  "technique": "property-based testing (rapid) with reference framing, canary payloads and recording stub backend",
+ },
 }
